@@ -1134,7 +1134,7 @@ class Collection(object):
                         raise OperationFailure(
                             '$slice limit must be positive: {}'.format(op))
                     if skip < 0:
-                        skip = len(doc_copy[field]) + skip
+                        skip = max(0, len(doc_copy[field]) + skip)
                     last = min(skip + limit, len(doc_copy[field]))
                     slice_ = slice(skip, last)
                 elif isinstance(op_value, int):
